@@ -351,6 +351,12 @@ class Interp:
             base = self.eval(e.value, st)
             if isinstance(base, StrV) and isinstance(e.slice, ast.Slice):
                 return self._slice(base, e.slice, st)
+            if isinstance(base, StrV) and isinstance(base.exact, str):
+                # exact string indexed by an exact integer: the character (IndexError paths are
+                # the caller's concern: an out-of-range index stays unknown)
+                iv = self.eval(e.slice, st)
+                if isinstance(iv, IntV) and iv.lo is not None and iv.lo == iv.hi and -len(base.exact) <= iv.lo < len(base.exact):
+                    return lit(base.exact[iv.lo])
             if isinstance(base, _Elems):
                 return base.elem
             return TOP
@@ -664,6 +670,8 @@ class Interp:
                 r = a.exact == b.exact
                 if isinstance(op, ast.NotEq):
                     r = not r
+            elif isinstance(op, (ast.Lt, ast.LtE, ast.Gt, ast.GtE)) and isinstance(a, StrV) and isinstance(b, StrV) and isinstance(a.exact, str) and isinstance(b.exact, str):
+                r = {ast.Lt: a.exact < b.exact, ast.LtE: a.exact <= b.exact, ast.Gt: a.exact > b.exact, ast.GtE: a.exact >= b.exact}[type(op)]
             elif isinstance(op, (ast.Eq, ast.NotEq)) and ((isinstance(a, NoneV) and isinstance(b, StrV)) or (isinstance(b, NoneV) and isinstance(a, StrV))):
                 r = isinstance(op, ast.NotEq)
             elif isinstance(op, (ast.Is, ast.IsNot)) and isinstance(b, NoneV):
